@@ -45,6 +45,11 @@ def main():
         table = None if case.get('table') is None else {int(k): v for k, v in case['table']}
         calls = []
         for what in case['calls']:
+            if isinstance(what, dict):                  # {'set': {...}}: the caller changes settings between requests
+                for k, v in what['set'].items():
+                    setattr(p, k, v)
+                calls.append({'call': 'set', 'items': [], 'err': None})
+                continue
             rec = {'call': what, 'items': [], 'err': None}
             try:
                 fn = getattr(p, what)
